@@ -100,6 +100,9 @@ class Ctx:
         self.extra = {}
         self._first_fail_t = None
         self.shrink_budget_s = 60 if tier == "quick" else 240
+        # typical cases take 0.1-50 ms (the slowest legitimate ones, day walks
+        # over millennia, a few seconds): a >= 1000x margin
+        self.case_timeout_s = 300
 
     # -- bookkeeping ------------------------------------------------------
     def count(self, case, out):
@@ -151,7 +154,12 @@ class Ctx:
 
     def observe(self, case, check_case):
         """Evaluate + count + record; returns the Outcome."""
-        out = check_case(case)
+        try:
+            with watchdog(max(self.case_timeout_s, 900)):
+                out = check_case(case)
+        except Hang as e:
+            out = Outcome(fail="hang: the case did not finish: %s" % e,
+                          classes=["hang"])
         self.count(case, out)
         if out.fail and not out.known:
             self.note_failure(case, out.fail)
@@ -176,7 +184,15 @@ class Ctx:
             if ctx._first_fail_t is not None and (
                     time.monotonic() - ctx._first_fail_t > ctx.shrink_budget_s):
                 return      # shrink budget used up: end the shrink quickly
-            out = check_case(case)
+            try:
+                with watchdog(ctx.case_timeout_s):
+                    out = check_case(case)
+            except Hang as e:
+                # every property here is about operations that return: a case
+                # that normally takes milliseconds and does not come back is a
+                # violation (recorded with the case), not a harness problem
+                out = Outcome(fail="hang: the case did not finish: %s" % e,
+                              classes=["hang"])
             ctx.count(case, out)
             if out.fail and not out.known:
                 ctx.note_failure(case, out.fail)
@@ -234,7 +250,9 @@ class Ctx:
 
 
 class watchdog:
-    """``with watchdog(seconds):`` raises Hang in the main thread on expiry."""
+    """``with watchdog(seconds):`` raises Hang in the main thread on expiry.
+    Nestable: leaving an inner watchdog re-arms the outer one with the time
+    it has left."""
 
     def __init__(self, seconds):
         self.seconds = seconds
@@ -243,12 +261,17 @@ class watchdog:
         raise Hang("no result after %.1f s" % self.seconds)
 
     def __enter__(self):
+        self.t0 = time.monotonic()
+        self.outer_left = signal.getitimer(signal.ITIMER_REAL)[0]
         self.old = signal.signal(signal.SIGALRM, self._fire)
         signal.setitimer(signal.ITIMER_REAL, self.seconds)
 
     def __exit__(self, *exc):
         signal.setitimer(signal.ITIMER_REAL, 0)
         signal.signal(signal.SIGALRM, self.old)
+        if self.outer_left:
+            left = self.outer_left - (time.monotonic() - self.t0)
+            signal.setitimer(signal.ITIMER_REAL, max(left, 0.01))
         return False
 
 
